@@ -26,15 +26,10 @@ type DecisionMakingParams struct {
 }
 
 func (p *DecisionMakingParams) AllAlternatives() []AlternativeWithCriteria {
-	notConsider := p.NotConsideredAlternatives
-	if notConsider == nil {
-		notConsider = make([]AlternativeWithCriteria, 0)
-	}
-	toConsider := p.ConsideredAlternatives
-	if toConsider == nil {
-		toConsider = make([]AlternativeWithCriteria, 0)
-	}
-	return append(toConsider, notConsider...)
+	// always a fresh slice: callers rewrite its elements, which must not reach the considered alternatives
+	all := make([]AlternativeWithCriteria, 0, len(p.ConsideredAlternatives)+len(p.NotConsideredAlternatives))
+	all = append(all, p.ConsideredAlternatives...)
+	return append(all, p.NotConsideredAlternatives...)
 }
 
 type RawMethodParameters = map[string]interface{}
